@@ -163,6 +163,26 @@ def run(ctx):
     ctx.note("tailless_zones_with_C05_hypotheses_discharged_by_dataOK_and_theorem", n_dataok)
     ctx.note("tailless_zones_failing_dataOK", not_dataok[:20])
     ctx.oracles["data.PeriodsWF"] = {"cases": len(zs), "failures": sum(1 for f in ctx.failures if f["source"].startswith("model-eval")), "exhaustive": True}
+    if ctx.thorough:
+        keys = [(sid, rid) for sid, rid, _ in zs]
+        chunks = [keys[i::15] for i in range(15)]
+        ctx.parallel(_explore, [c for c in chunks if c])
+    else:
+        _explore(ctx, [(sid, rid) for sid, rid, _ in zs])
+
+
+def _zone_of(sid, rid):
+    if rid is None:
+        Pm = Z.P()
+        return Pm.DateTimeZone.for_offset(Pm.Offset.from_seconds(int(sid[5:])))
+    return Z.tzdb()[rid]
+
+
+def _explore(ctx, keys):
+    """point queries and walks for the given zones (runs in worker processes in the thorough tier)"""
+    zs = [(sid, rid, _zone_of(sid, rid)) for sid, rid in keys]
+    zmap = {sid: z for sid, _, z in zs}
+    defs = [Z.zone_def_line(sid, z) for sid, _, z in zs]
     # (b) point queries
     ops = list(defs)
     rng = ctx.rng
@@ -199,6 +219,8 @@ def run(ctx):
     dis = ctx.correspond("zone.get+walk", ops, impl_factory(zmap), oracle=oracle_factory(zmap),
                          nontrivial=lambda t, r: t[0] != "zone.def", exhaustive=False)
     ctx.note("ops", len(ops))
+
+
 
 
 def replay_op(op, failure):
